@@ -332,14 +332,16 @@ def gen_cases(rng, tier):
         for q in (b"18014398509481984K", b"17179869184G", b"17592186044416M", b"1K", b"1X"):
             cs.append(f"create {M} dev adaptive q={hx(q)}")
     # the ones that really compress (about 15 s each on a loaded machine)
-    ok_flags = [[], ["t=0"], ["t=1"], ["t=16"], ["q=" + hx(b"1K")], ["q=" + hx(b"7")], ["v=0", "t=0"]]
+    ok_flags = [[], ["t=0"], ["t=1"], ["t=16"], ["q=" + hx(b"1K")], ["q=" + hx(b"7")]]
     if tier != "quick":
-        ok_flags += [["q=" + hx(b"18014398509481984K")], ["t=3"], ["q=" + hx(b" 2g ")], ["v=2"]]
+        ok_flags += [["v=0", "t=0"], ["q=" + hx(b"18014398509481984K")], ["t=3"], ["q=" + hx(b" 2g ")], ["v=2"]]
     for i, fl in enumerate(ok_flags):
         cs.append(f"create {M if i % 3 != 1 else S} " + " ".join(fl))
+    # one file holding one sample: before the -t 0 fix this exited 0 with sequence-less contigs
     one = "M:" + content_of_set(small[:1], "multi")
     cs.append(f"create {one} t=0")
-    cs.append(f"create {one}")
+    if tier != "quick":
+        cs.append(f"create {one}")
     # spread the slow cases over the shards
     slow = [c for c in cs if c.startswith("create") and expected_create(c.split())[0] is None]
     slowset = set(slow)
@@ -434,9 +436,8 @@ def oracle(case, impl):
             return f"create exited 0 but a sample does not extract with its full length: {f.get('data')}"
         return None
     if t[0] == "info":
-        if t[1] == "missing" and zero:
-            return "info on a missing archive exits 0"
-        return None
+        # not implemented: it opens nothing and prints nothing, so success is never the truth (C17-F: it used to exit 0)
+        return "info exits 0 without doing anything (the archive is not even opened)" if zero else None
     arc, content, dst = t[1], parse_content(t[2]), t[3]
     why = None
     if arc == "missing":
